@@ -619,8 +619,10 @@ def process_scope(doc):
         for _ in range(5):
             await asyncio.sleep(0)
         for p in (a, b):
-            if 'call_soon-after-the-last-step' not in [w for w, _ in p.seen]:
-                bad.append(f'the callback scheduled from the last step of {p.pid} never ran')
+            want_points = ['run-before-await', 'run-after-nested', 'run-after-await', 'call_soon', 'continuation', 'call_soon-after-the-last-step']
+            if sorted(w for w, _ in p.seen) != sorted(want_points) or p.state.name != 'FINISHED':
+                bad.append(f'process {p.pid} ended {p.state.name} having sampled current() at {[w for w, _ in p.seen]}; expected FINISHED and the '
+                           f'points {want_points}' + (f' ({p.exception()!r})' if p.state.name == 'EXCEPTED' else ''))
             for where, cur in p.seen:
                 if cur is not p:
                     bad.append(f'in {where} of {p.pid} current() was {cur}')
@@ -628,7 +630,11 @@ def process_scope(doc):
             bad.append('stack not unwound after termination')
         return '; '.join(bad[:3])
 
-    return _run(main())
+    plumpy.set_event_loop_policy()        # re-entrant loops: a step runs another process to completion with execute()
+    try:
+        return _run(main())
+    finally:
+        plumpy.reset_event_loop_policy()
 
 
 def hooks_outside_scope(doc):
@@ -1151,6 +1157,21 @@ def savable_members(doc):
             bad.append(f'Outer.recreate_from(saved_state): the loader recorded in the saved state was not used for the nested member (loader saw {Loader.used})')
     except Exception as e:  # noqa
         bad.append(f'Outer.recreate_from(saved_state) with the recorded loader raised {type(e).__name__}: {e}')
+    # ---- one load context WITHOUT a loader reused for several loads (ProcessLauncher keeps one): each state is loaded through the
+    #      loader recorded in IT; the shared context is not pinned to the first one
+    shared = persistence.LoadSaveContext(marker=1)
+    Loader.used.clear()
+    try:
+        first = persistence.Savable.load(saved, shared)                  # `saved` records Loader
+        plain_state = Inner([1]).save()                                  # records no loader: the default one resolves it
+        if shared.loader is not None:
+            bad.append(f'after loading one state the shared load context is pinned to its loader ({type(shared.loader).__name__})')
+        n_before = len(Loader.used)
+        second = persistence.Savable.load(plain_state, shared)
+        if len(Loader.used) != n_before:
+            bad.append('a state that records no loader was resolved through the loader recorded in a state loaded EARLIER with the same context')
+    except Exception as e:  # noqa
+        bad.append(f'two loads through one shared context raised {type(e).__name__}: {e}')
     # ---- members declared lazily in the persist() hook: also when an instance of the PARENT class was saved before
     class LazyBase(persistence.Savable):
         @classmethod
@@ -2165,6 +2186,14 @@ def _control_world():
             self.statuses.append(('last', self.status))
             return 'done'
 
+        def load_instance_state(self, saved_state, load_context):
+            super().load_instance_state(saved_state, load_context)
+            self.trace, self.statuses, self.gate = [], [], None        # (observation aids of this harness, not persisted)
+
+    import rprocs
+    Ctl.__qualname__ = Ctl.__name__ = 'Ctl'
+    Ctl.__module__ = 'rprocs'
+    setattr(rprocs, 'Ctl', Ctl)       # loadable by name: the restored points unbundle a checkpoint of it
     return Ctl
 
 
@@ -2173,6 +2202,26 @@ async def _drive_history(Ctl, point, requests, errs):
     stays paused, resume it if it waits, and report everything observable"""
     proc = Ctl()
     obs = {'raised': [], 'returns': []}
+    if point == 'restored-created':
+        # the same points on a process RESTORED from a checkpoint (built by load_instance_state, never by __init__)
+        import plumpy
+        proc = plumpy.Bundle(proc).unbundle()
+        point = 'created'
+    elif point == 'restored-waiting':
+        import plumpy
+        t0 = asyncio.ensure_future(proc.step_until_terminated())
+        await _settle(5)
+        proc.gate.set_result(None)
+        await _settle(10)
+        bundle = plumpy.Bundle(proc)
+        t0.cancel()
+        await _settle(3)
+        proc = bundle.unbundle()
+        obs['expected_steps'] = ['after', 'last']
+        obs['restored'] = True
+        task = asyncio.ensure_future(proc.step_until_terminated())
+        await _settle(10)
+        point = 'restored-waiting*'
     if point == 'listener':
         # the requests are issued re-entrantly, from a listener called while the process ENTERS the waiting state
         import plumpy
@@ -2201,7 +2250,8 @@ async def _drive_history(Ctl, point, requests, errs):
     if point == 'paused':
         await proc.step()         # CREATED -> RUNNING
         proc.pause('first')       # paused at the step boundary before the first step function: the task below waits for play()
-    task = asyncio.ensure_future(proc.step_until_terminated())
+    if point != 'restored-waiting*':
+        task = asyncio.ensure_future(proc.step_until_terminated())
     if point == 'created':
         task.cancel()
         task = None
@@ -2226,6 +2276,8 @@ async def _drive_history(Ctl, point, requests, errs):
             elif r == 'play':
                 obs['returns'].append(('play', proc.play()))
             elif r == 'kill':
+                if not proc.has_terminated():
+                    obs['kill_on_live'] = True       # (C04 speaks of kill() on a process that has not terminated)
                 rv = proc.kill('enough')
                 obs['returns'].append(('kill', rv))
                 if rv is True:
@@ -2233,13 +2285,17 @@ async def _drive_history(Ctl, point, requests, errs):
             elif r == 'resume':
                 obs['returns'].append(('resume', proc.resume('v')))
             elif r == 'cancel':
+                if not proc.has_terminated():
+                    obs['kill_on_live'] = True
                 proc.future().cancel()       # "cancelling the process's future has the same effect as kill()"
+            elif r == 'tick':
+                await _settle(5)             # the event loop runs between two requests (the earlier one takes effect first)
         except Exception as e:  # noqa
             obs['raised'].append((r, type(e).__name__, str(e)[:60]))
     if task is None:
         task = asyncio.ensure_future(proc.step_until_terminated())
     await _settle(10)
-    if point == 'running' and proc.gate is not None and not proc.gate.done():
+    if (point == 'running' or 'tick' in requests) and proc.gate is not None and not proc.gate.done():
         proc.gate.set_result(None)      # a request made inside the running step takes effect when that step ends
         await _settle(20)
     obs['paused_midway'] = proc.paused
@@ -2303,10 +2359,19 @@ def control_histories(doc):
         if ref['task'] is not None:
             ref['task'].cancel()
         reqs = ['pause', 'pause0', 'play', 'kill', 'resume', 'cancel']
-        for point in ('created', 'paused', 'running', 'waiting', 'listener'):
-            for n in ((1, 2, 3, 4) if doc.get('tier') == 'thorough' else (1, 2, 3)):
-                for requests in itertools.product(reqs, repeat=n):
-                    if 'resume' in requests and point not in ('waiting', 'listener'):
+        for point in ('created', 'paused', 'running', 'waiting', 'listener', 'restored-created', 'restored-waiting'):
+            lengths = (1, 2, 3, 4) if doc.get('tier') == 'thorough' else (1, 2, 3)
+            if point.startswith('restored-'):
+                lengths = (1,)      # a restored process answers every single request like a freshly constructed one
+            for n in lengths:
+                for base, ticked in itertools.product(itertools.product(reqs, repeat=n), (False, True)):
+                    requests = base
+                    if ticked:
+                        # the same requests with the event loop running between each two of them
+                        if n == 1 or point == 'listener':
+                            continue
+                        requests = tuple(x for r_ in base for x in (r_, 'tick'))[:-1]
+                    if 'resume' in requests and point not in ('waiting', 'listener', 'restored-waiting'):
                         continue
                     errs = []
                     asyncio.get_event_loop().set_exception_handler(lambda l, c: errs.append(repr(c.get('exception') or c.get('message'))))
@@ -2324,9 +2389,9 @@ def control_histories(doc):
                             probs.append(('C05', 'step-while-paused', f'a step started while the process reported paused: {proc.trace}'))
                         if not killed_asked and proc.state.name != 'KILLED':
                             steps = [e[0] for e in proc.trace]
-                            if steps != ['run', 'run-end', 'after', 'last'] or proc.state.name != 'FINISHED' or proc.result() != 'done':
+                            if steps != obs.get('expected_steps', ['run', 'run-end', 'after', 'last']) or proc.state.name != 'FINISHED' or proc.result() != 'done':
                                 probs.append(('C05', 'different-run', f'steps {steps}, end {proc.state.name}: not the undisturbed run'))
-                        if not killed_asked and proc.state.name == 'FINISHED' and proc.statuses != REF_STATUSES:
+                        if not killed_asked and proc.state.name == 'FINISHED' and proc.statuses != REF_STATUSES and not obs.get('restored'):
                             probs.append(('C05', 'status', f'status at the entry of each step {proc.statuses}; undisturbed run: {REF_STATUSES}'))
                         pp = [r for r in requests if r in ('pause', 'pause0', 'play')]
                         if pp and pp[-1] != 'play' and not killed_asked and 'resume' not in requests and not obs['raised']:
@@ -2346,7 +2411,8 @@ def control_histories(doc):
                         for r, cls_, msg in obs['raised']:
                             if r == 'kill':
                                 probs.append(('C04', 'kill-raises', f'kill() raised {cls_}: {msg}'))
-                        if killed_asked and proc.state.name != 'KILLED':       # (no step of this process ever fails: EXCEPTED is no excuse)
+                        if killed_asked and proc.state.name != 'KILLED' and (obs.get('kill_on_live') or point == 'listener'):
+                            # (no step of this process ever fails: EXCEPTED is no excuse)
                             kind_ = 'kill-lost' if proc.state.name != 'EXCEPTED' else 'kill-excepts'
                             probs.append(('C04', kind_, f'kill requested but the process ended {proc.state.name}'
                                           + (f' with {proc.exception()!r}' if proc.state.name == 'EXCEPTED' else '')))
@@ -2392,8 +2458,9 @@ def control_histories(doc):
             prop, hist, kind = key.split('|')
             point, reqs_ = hist.split(':')
             seq_ = reqs_.split('+')
-            if len(seq_) <= 3:
-                return None
+            if len([x for x in seq_ if x != 'tick']) <= 3:
+                return None          # (histories of the quick tier, with or without loop ticks between the requests, are listed one by one)
+            seq_ = [x for x in seq_ if x != 'tick']
             for k in known:
                 p2, h2, k2 = k.split('|')
                 pt2, r2 = h2.split(':')
